@@ -186,7 +186,7 @@ Proof.
   apply byte_eqb_eq in A3. subst atyp.
   match type of H with context [if ?cnd then _ else _] => destruct cnd eqn:E4 end.
   { destruct H as [o' [H|[H _]]]; discriminate H. }
-  apply Nat.ltb_ge in E4. cbn [length] in E4.
+  apply Nat.ltb_ge in E4. unfold at_ in E4. cbn [length nth] in E4.
   assert (Lr : blen b4 + 2 <= length r) by lia.
   pose proof (firstn_skipn (blen b4) r) as Hr.
   rewrite (skipn_cons_nth r (blen b4)) in Hr by lia.
@@ -226,7 +226,8 @@ Proof.
   split; [|split; [|split]].
   - unfold enc_auth. rewrite (len_byte_blen ul) by exact Lu. rewrite (len_byte_blen pl) by exact Lp.
     cbn [app]. rewrite <- app_assoc. cbn [app]. rewrite firstn_skipn.
-    fold pl. rewrite <- (skipn_cons_nth r (blen ul)) by lia.
+    unfold pl. change (1 + blen ul) with (S (blen ul)).
+    rewrite <- (skipn_cons_nth r (blen ul)) by lia.
     rewrite firstn_skipn. reflexivity.
   - rewrite Lu. apply blen_le.
   - rewrite Lp. apply blen_le.
@@ -271,25 +272,78 @@ Theorem accepted_only_wellformed c (segs : list bytes) :
     run c segs = accepted_state c pre cr a hi lo trailing.
 Proof.
   intros H. rewrite run_stream in H.
-  destruct (greet_inv _ _ _ eq_refl H) as (methods & rest & Hs & Hl & Hin).
+  pose proof H as X. eapply greet_inv in X; [|reflexivity]. destruct X as (methods & rest & Hs & Hl & Hin).
   rewrite Hs in H. rewrite greet_accept in H by assumption.
   unfold next_state, required in H, Hin.
   destruct (proxyauth c) eqn:Hpa.
-  - destruct (auth_inv _ _ _ eq_refl H) as (ver & u & p & rest2 & Hs2 & Hu & Hp & Hok).
+  - pose proof H as X. eapply auth_inv in X; [|reflexivity]. destruct X as (ver & u & p & rest2 & Hs2 & Hu & Hp & Hok).
     rewrite Hs2 in H. rewrite auth_step in H by assumption. rewrite Hok in H.
-    destruct (connect_inv _ _ _ eq_refl H) as (a & hi & lo & trailing & Hs3 & Hwf).
+    pose proof H as X. eapply connect_inv in X; [|reflexivity]. destruct X as (a & hi & lo & trailing & Hs3 & Hwf).
     exists (enc_greeting methods ++ enc_auth ver u p), [x05; x02; x01; x00], (Some (u, p)), a, hi, lo, trailing.
     assert (Hn : negotiated c (enc_greeting methods ++ enc_auth ver u p) [x05; x02; x01; x00] (Some (u, p)))
       by (apply neg_auth; assumption).
     assert (Hc : concat segs = (enc_greeting methods ++ enc_auth ver u p) ++ enc_request a hi lo ++ trailing)
       by (rewrite Hs, Hs2, Hs3, <- app_assoc; reflexivity).
     split; [exact Hn|]. split; [exact Hwf|]. split; [exact Hc|].
-    apply accept_exact; assumption.
-  - destruct (connect_inv _ _ _ eq_refl H) as (a & hi & lo & trailing & Hs3 & Hwf).
+    exact (accept_exact c segs _ _ _ a hi lo trailing Hn Hwf Hc).
+  - pose proof H as X. eapply connect_inv in X; [|reflexivity]. destruct X as (a & hi & lo & trailing & Hs3 & Hwf).
     exists (enc_greeting methods), [x05; x00], None, a, hi, lo, trailing.
     assert (Hn : negotiated c (enc_greeting methods) [x05; x00] None) by (apply neg_noauth; assumption).
     assert (Hc : concat segs = enc_greeting methods ++ enc_request a hi lo ++ trailing)
       by (rewrite Hs, Hs3; reflexivity).
     split; [exact Hn|]. split; [exact Hwf|]. split; [exact Hc|].
-    apply accept_exact; assumption.
+    exact (accept_exact c segs _ _ _ a hi lo trailing Hn Hwf Hc).
+Qed.
+
+(* ---- domain names: exact for ASCII names, lossy otherwise (finding) ---- *)
+Lemma domain_exact_partial c (segs : list bytes) (neg pre : bytes) cr (name : bytes) (hi lo : byte)
+      (trailing : bytes) :
+  negotiated c neg pre cr -> length name <= 255 -> all_ascii name ->
+  concat segs = neg ++ enc_request (ADom name) hi lo ++ trailing ->
+  dest (snd (run c segs)) = Some (HText name, u16be hi lo).
+Proof.
+  intros Hn Hl Ha Hs.
+  rewrite (accept_exact c segs neg pre cr (ADom name) hi lo trailing Hn Hl Hs).
+  unfold accepted_state, success_obs, unreachable_obs, host_of.
+  rewrite (decode_ascii_exact name Ha).
+  destruct (eager c && open_fails c); reflexivity.
+Qed.
+
+Definition cfg0 : cfg := mkCfg false (fun _ _ => true) false false.
+
+Lemma domain_exact_refuted :
+  exists (segs : list bytes) (name : bytes) (hi lo : byte) (o : obs),
+    length name <= 255 /\
+    concat segs = enc_greeting [x00] ++ enc_request (ADom name) hi lo /\
+    run cfg0 segs = (Relay, o) /\
+    dest o <> Some (HText name, u16be hi lo).
+Proof.
+  exists [[x05; x01; x00; x05; x01]; [x00; x03; x01; x80; x00; x50]], [x80], x00, x50.
+  eexists. split; [cbn; lia|]. split; [reflexivity|]. split; [vm_compute; reflexivity|].
+  cbn. intros H. discriminate H.
+Qed.
+
+(* two different requested names, one destination *)
+Lemma domain_collapse :
+  exists (n1 n2 : bytes), n1 <> n2 /\
+    run cfg0 [enc_greeting [x00] ++ enc_request (ADom n1) x00 x50]
+    = run cfg0 [enc_greeting [x00] ++ enc_request (ADom n2) x00 x50].
+Proof. exists [x80], [x81]. split; [discriminate | vm_compute; reflexivity]. Qed.
+
+(* ---- a concrete, non-trivial instance of the hypotheses of accept_exact ---- *)
+Definition cfg_auth : cfg := mkCfg true (fun u p => bytes_eqb u [x75] && bytes_eqb p [x70; x77]) true false.
+
+Lemma nonvacuous :
+  negotiated cfg_auth (enc_greeting [x00; x02] ++ enc_auth x01 [x75] [x70; x77])
+             [x05; x02; x01; x00] (Some ([x75], [x70; x77]))
+  /\ addr_wf (ADom [x61; x2e; x62])
+  /\ run cfg_auth [[x05; x02; x00]; [x02; x01; x01; x75; x02; x70]; [x77; x05; x01; x00; x03; x03; x61; x2e];
+                   [x62; x01; xbb; x47; x45]; [x54]]
+     = (Relay, mkObs ([x05; x02; x01; x00] ++ REPLY_SUCCESS) (Some (HText [x61; x2e; x62], 443%N)) true false
+                     (Some ([x75], [x70; x77])) [x47; x45; x54]).
+Proof.
+  split; [|split].
+  - apply neg_auth; cbn; try lia; auto.
+  - cbn. lia.
+  - vm_compute. reflexivity.
 Qed.
